@@ -14,15 +14,17 @@ open Sdmmc.Lemmas.VolDisk Sdmmc.Lemmas.VolMed
 open Sdmmc.Lemmas.WriteSetInv
 open Sdmmc.Lemmas.ReadRefines (MgrOK)
 
-/-! ### A fresh manager reads a file of the FAT16 root directory -/
+/-! ### A fresh manager reads a file of the root directory -/
 
-/-- On a medium `d'` that mounts to the FAT16 record `w`, whose root directory has `x` as the first hit for the
+/-- On a medium `d'` that mounts to the record `w`, whose root directory (the fixed region on FAT16, the chain `rc` on
+FAT32: `DirOn`) has `x` as the first hit for the
 stored name `sfn`, `x` decoding to the plain-file entry `e` with chain `cs`: ANY fresh manager on `d'` mounts, opens
 the root directory, opens the file by any spelling of its name and reads `fileContent w d' cs e.size` — writing
 nothing. -/
-theorem fresh_reads_root16 (d' : Disk) (idx : Nat) (w : FatVolume) (hmw : mountPure (d'.get 0) idx d'.get = .ok w)
-    (hgw : WFGeom w) (h16 : w.fatType = .fat16) (sfn : Bytes) (x : Slot) (e : DirEntry) (cs : List Nat)
-    (hfirst : Reopen.FirstHit (Reopen.dirSlotsOf w d' 0xFFFFFFFC []) sfn x) (hdec : Listing.decode w.fatType x = e)
+theorem fresh_reads_root (d' : Disk) (idx : Nat) (w : FatVolume) (hmw : mountPure (d'.get 0) idx d'.get = .ok w)
+    (hgw : WFGeom w) (rc : List Nat) (hdir : Reopen.DirOn w d' Gen.CLUSTER_ROOT_DIR rc) (sfn : Bytes) (x : Slot) (e : DirEntry)
+    (cs : List Nat)
+    (hfirst : Reopen.FirstHit (Reopen.dirSlotsOf w d' 0xFFFFFFFC rc) sfn x) (hdec : Listing.decode w.fatType x = e)
     (hplain : Attr.isDirectory e.attributes = false)
     (hch : (e.cluster < 2 ∧ cs = [] ∧ e.size = 0) ∨ Chain w d' e.cluster cs) (hfit : e.size ≤ cs.length * clusterBytesLen w)
     (t0 : Mgr) (name : List Nat) (ht0 : MgrOK t0) (hdisk : t0.dev.disk = d') (hvols : t0.vols = []) (hdirs : t0.dirs = [])
@@ -66,15 +68,34 @@ theorem fresh_reads_root16 (d' : Disk) (idx : Nat) (w : FatVolume) (hmw : mountP
     · rw [ht2_dirs]; rfl
     · rw [ht2_vols]; simp
   obtain ⟨t3, hopen3, hop3, _, hlen3, hread3⟩ := Reopen.open_read_entry t2 (t0.nextId + 1) name _ 0 sfn
-    { rawVolume := t0.nextId, idx := idx, vol := w } [] x e cs hok_t2 hctx (by rw [ht2_vols]; rfl) hgw
+    { rawVolume := t0.nextId, idx := idx, vol := w } rc x e cs hok_t2 hctx (by rw [ht2_vols]; rfl) hgw
     (by rw [ht2_files, ht2_mf]; exact hmf) (by rw [ht2_files]; intro g hg; cases hg)
-    (fun hk => absurd ⟨h16, rfl⟩ hk) (by rw [hd_t2]; exact hfirst) hdec hplain
+    (by rw [hd_t2]; exact hdir) (by rw [hd_t2]; exact hfirst) hdec hplain
     (by unfold fileIsOpen; rw [ht2_files]; rfl) (by rw [hd_t2]; exact hch) hfit
   rw [ht2_id] at hopen3 hlen3 hread3
   rw [hd_t2] at hread3
   refine ⟨t1, t2, t3, hopen1, hopen2', hopen3, hop3.2.1.trans hd_t2, hop3.2.2.trans hw_t2, hlen3, fun n => ?_⟩
   obtain ⟨t4, hr, hd4, hw4⟩ := hread3 n
   exact ⟨t4, hr, hd4, hw4.trans hw_t2⟩
+
+/-- The FAT16 case: the root directory is the fixed region. -/
+theorem fresh_reads_root16 (d' : Disk) (idx : Nat) (w : FatVolume) (hmw : mountPure (d'.get 0) idx d'.get = .ok w)
+    (hgw : WFGeom w) (h16 : w.fatType = .fat16) (sfn : Bytes) (x : Slot) (e : DirEntry) (cs : List Nat)
+    (hfirst : Reopen.FirstHit (Reopen.dirSlotsOf w d' 0xFFFFFFFC []) sfn x) (hdec : Listing.decode w.fatType x = e)
+    (hplain : Attr.isDirectory e.attributes = false)
+    (hch : (e.cluster < 2 ∧ cs = [] ∧ e.size = 0) ∨ Chain w d' e.cluster cs) (hfit : e.size ≤ cs.length * clusterBytesLen w)
+    (t0 : Mgr) (name : List Nat) (ht0 : MgrOK t0) (hdisk : t0.dev.disk = d') (hvols : t0.vols = []) (hdirs : t0.dirs = [])
+    (hfiles : t0.files = []) (hmv : 0 < t0.maxVols) (hmd : 0 < t0.maxDirs) (hmf : 0 < t0.maxFiles)
+    (hid : t0.nextId + 2 < 4294967296) (hname : Sfn.createFromStr name = .ok sfn) :
+    ∃ t1 t2 t3, openRawVolume idx t0 = (.ok t0.nextId, t1) ∧
+      openRootDir t0.nextId t1 = (.ok (t0.nextId + 1), t2) ∧
+      openFileInDir (t0.nextId + 1) name .ReadOnly t2 = (.ok (t0.nextId + 2), t3) ∧
+      t3.dev.disk = d' ∧ t3.dev.wlog = t0.dev.wlog ∧
+      fileLength (t0.nextId + 2) t3 = (.ok e.size, t3) ∧
+      ∀ n, ∃ t4, read (t0.nextId + 2) n t3 = (.ok ((fileContent w d' cs e.size).take n), t4) ∧
+        t4.dev.disk = d' ∧ t4.dev.wlog = t0.dev.wlog :=
+  fresh_reads_root d' idx w hmw hgw [] (fun hk => absurd ⟨h16, rfl⟩ hk) sfn x e cs hfirst hdec hplain hch hfit t0 name ht0 hdisk
+    hvols hdirs hfiles hmv hmd hmf hid hname
 
 /-! ### The flushed file on a medium -/
 
